@@ -160,6 +160,24 @@ fn addr(req: &Value) -> R {
         let sb = hx(req, "unlock_sig")?;
         let ss = SighashSignature::from_bytes(&sb, &[]).map_err(|e| drv(format!("unlock_sig: {}", e)))?;
         o["unlocking"] = sub(|| a.get_unlocking_script(&pk, &ss), |s| h(&s.to_bytes()));
+        // ... and with a signature object as Transaction::sign hands it out (recovery info and the signed preimage travel with it),
+        // made by a key OBJECT whose compression flag is chosen independently of the form of the public key bytes
+        if let Some(kb) = hx_opt(req, "unlock_key")? {
+            let key = PrivateKey::from_bytes(&kb).map_err(|e| drv(format!("unlock_key: {}", e)))?.compress_public_key(bo(req, "unlock_key_compressed"));
+            let mut raw = vec![1u8, 0, 0, 0, 1];
+            raw.extend_from_slice(&[0x22; 32]);
+            raw.extend_from_slice(&[3, 0, 0, 0, 0, 0xff, 0xff, 0xff, 0xff, 1, 5, 0, 0, 0, 0, 0, 0, 0, 1, 0x51, 0, 0, 0, 0]);
+            let mut tx = bsv::Transaction::from_bytes(&raw).map_err(|e| drv(format!("unlock tx: {}", e)))?;
+            let lock = a.get_locking_script().map_err(lib)?;
+            let flag = if bo(req, "unlock_legacy") { bsv::SigHash::ALL } else { bsv::SigHash::InputsOutputs };
+            o["unlocking_signed"] = sub(
+                || tx.sign(&key, flag, 0, &lock, 1000).and_then(|ss2| Ok((ss2.to_bytes()?, a.get_unlocking_script(&pk, &ss2)))),
+                |(sigb, res)| match res {
+                    Ok(s) => json!({"sig": hex::encode(sigb), "script": hex::encode(s.to_bytes())}),
+                    Err(e) => json!({"sig": hex::encode(sigb), "script_err": e.to_string()}),
+                },
+            );
+        }
     }
     Ok(o)
 }
